@@ -84,10 +84,10 @@ theorem appendMid_slash_star (p : Prefs) (il : Nat) (o : O) (w : Cps) (f : Fl) (
     appendMid p il ([47] :: o) (42 :: w) f = (42 :: w) :: [32] :: [47] :: o := by
   have h1 : ((42 :: w) == [125]) = false := by
     cases w <;> simp
-  have h2 : removeLastIfS ([47] :: o) = [47] :: o := by simp [removeLastIfS, allWs, isWs]
+  have h2 : removeLastIfS ([47] :: o) = [47] :: o := by simp [removeLastIfS, allCssWs, isCssWs, allWs, isWs]
   unfold appendMid
   simp only [hi, h1, Bool.false_and, Bool.or_false, Bool.false_eq_true, if_false, h2]
-  have : wouldFuse ([47] :: o) (42 :: w) = true := by simp [wouldFuse]
+  have : wouldFuse ([47] :: o) (42 :: w) = true := by simp [wouldFuse, lastPiece, List.find?]
   split <;> simp [this]
 
 def isAttrOp (c : Nat) : Bool := c == 42 || c == 126 || c == 124 || c == 94 || c == 36
@@ -96,7 +96,7 @@ theorem appendMid_op_equals (p : Prefs) (il : Nat) (o : O) (c : Nat) (hc : isAtt
     (hi : f.indent = false) : appendMid p il ([c] :: o) [61] f = [61] :: [32] :: [c] :: o := by
   have hw : wouldFuse ([c] :: o) [61] = true := by
     simp only [isAttrOp, Bool.or_eq_true, beq_iff_eq] at hc
-    rcases hc with (((rfl | rfl) | rfl) | rfl) | rfl <;> simp [wouldFuse]
+    rcases hc with (((rfl | rfl) | rfl) | rfl) | rfl <;> simp [wouldFuse, lastPiece, List.find?]
   unfold appendMid
   simp [hi, endsSp, hw]
 
@@ -105,7 +105,7 @@ theorem append_op_equals (p : Prefs) (il : Nat) (o : O) (c : Nat) (hc : isAttrOp
     append p il ([c] :: o) (.str [61]) t_CHAR {} = [61] :: [32] :: [c] :: o := by
   have h2 : removeLastIfS ([c] :: o) = [c] :: o := by
     simp only [isAttrOp, Bool.or_eq_true, beq_iff_eq] at hc
-    rcases hc with (((rfl | rfl) | rfl) | rfl) | rfl <;> simp [removeLastIfS, allWs, isWs]
+    rcases hc with (((rfl | rfl) | rfl) | rfl) | rfl <;> simp [removeLastIfS, allCssWs, isCssWs, allWs, isWs]
   have hm := appendMid_op_equals p il o c hc {} rfl
   unfold append appendPre
   simp only [AVal.truthy, AVal.text]
@@ -116,6 +116,11 @@ theorem append_op_equals (p : Prefs) (il : Nat) (o : O) (c : Nat) (hc : isAttrOp
 
 /-! ### ec62b69, for every record -/
 
+theorem plain_ne_nil {w : Cps} (hw : Plain w = true) : w ≠ [] := by
+  intro e
+  subst e
+  exact absurd hw (by decide)
+
 theorem plain_ne_slash {w : Cps} (hw : Plain w = true) : w ≠ [47] := by
   intro e
   subst e
@@ -123,9 +128,9 @@ theorem plain_ne_slash {w : Cps} (hw : Plain w = true) : w ≠ [47] := by
 
 /-- a word appended with `space=False` (generic type): nothing is written behind it -/
 theorem append_word_nospace (p : Prefs) (il : Nat) (o : O) (w ty : Cps) (hw : Plain w = true)
-    (ht : GenericTy ty = true) (ho : o.head? ≠ some [47]) :
+    (ht : GenericTy ty = true) (ho : lastPiece o ≠ some [47]) :
     append p il o (.str w) ty { space := false } = w :: o := by
-  have hwf := wouldFuse_of_head_ne ho hw
+  have hwf := wouldFuse_of_last_ne ho hw
   simp only [Plain, Bool.and_eq_true, Bool.not_eq_true'] at hw
   obtain ⟨⟨⟨h1, h2⟩, h3⟩, h4'⟩ := hw
   have h4 : (endsSp w && !endsEscSp w) = false := by
@@ -156,9 +161,9 @@ theorem append_word_nospace (p : Prefs) (il : Nat) (o : O) (w ty : Cps) (hw : Pl
 
 /-- a comment object appended with `space=False` while comments are kept -/
 theorem append_comment_nospace (p : Prefs) (hk : p.keepComments = true) (il : Nat) (o : O) (c : Cps)
-    (hc : Plain c = true) (ho : o.head? ≠ some [47]) :
+    (hc : Plain c = true) (ho : lastPiece o ≠ some [47]) :
     append p il o (.obj c) t_COMMENT { space := false } = c :: o := by
-  have hwf := wouldFuse_of_head_ne ho hc
+  have hwf := wouldFuse_of_last_ne ho hc
   simp only [Plain, Bool.and_eq_true, Bool.not_eq_true'] at hc
   obtain ⟨⟨⟨h1, h2⟩, h3⟩, h4'⟩ := hc
   have h4 : (endsSp c && !endsEscSp c) = false := by
@@ -180,7 +185,7 @@ theorem append_comment_nospace (p : Prefs) (hk : p.keepComments = true) (il : Na
     e59, b7, Bool.and_false, hwf]
 
 /-- **ec62b69 for every record**: page name, comment, pseudo-page are written without anything between them -/
-theorem pageSel_name_comment_pseudo (p : Prefs) (hk : p.keepComments = true) (hs : allWs p.spacer = true) (il : Nat)
+theorem pageSel_name_comment_pseudo (p : Prefs) (hk : p.keepComments = true) (hs : allCssWs p.spacer = true) (il : Nat)
     (a c ps ty3 : Cps) (ha : Plain a = true) (hc : Plain c = true) (hps : Plain ps = true)
     (ht3 : GenericTy ty3 = true) (hni : (ty3 == t_IDENT) = false) :
     value (runCalls p il (pageSelCalls [(t_IDENT, .str a), (t_COMMENT, .obj c), (ty3, .str ps)])) = a ++ c ++ ps := by
@@ -190,13 +195,13 @@ theorem pageSel_name_comment_pseudo (p : Prefs) (hk : p.keepComments = true) (hs
     simpa using ht3.1.1.1.1.1.1
   simp only [pageSelCalls, pageSelCallsFrom, beq_self_eq_true, if_true, e1, Bool.false_eq_true, if_false,
     Bool.true_and, hni, e3, EVal.aval, runCalls, List.foldl_cons, List.foldl_nil]
-  rw [append_word_nospace p il [] a t_IDENT ha (by decide) (by simp)]
-  rw [append_comment_nospace p hk il [a] c hc (by simpa using plain_ne_slash ha)]
-  rw [append_word p il (c :: [a]) ps ty3 hps ht3 (by simpa using plain_ne_slash hc)]
+  rw [append_word_nospace p il [] a t_IDENT ha (by decide) (by simp [lastPiece])]
+  rw [append_comment_nospace p hk il [a] c hc (by rw [lastPiece_cons_of_ne_nil (plain_ne_nil ha)]; simpa using plain_ne_slash ha)]
+  rw [append_word p il (c :: [a]) ps ty3 hps ht3 (by rw [lastPiece_cons_of_ne_nil (plain_ne_nil hc)]; simpa using plain_ne_slash hc)]
   unfold gapPieces value
   by_cases he : p.spacer.isEmpty = true
   · have e : p.spacer = [] := by simpa using he
-    simp [e, removeLastIfS, allWs, isWs]
+    simp [e, removeLastIfS, allCssWs, isCssWs]
   · simp [he, removeLastIfS, hs]
 
 end CssVerif.Out
